@@ -335,16 +335,26 @@ def clause_d(c: Check):
         raise AnalysisError('C04-d: positive control failed: rule reports %d of %d seeded escapes in the fixture'
                             % (len(got), want))
     c.ok('C04-d', 'positive-control/fixture', '%d seeded escapes reported' % want)
-    # the default environment getter returns a fresh copy on every call
+    environ_getter_is_fresh(c, 'C04-d')
+
+
+def environ_getter_is_fresh(c: Check, rule: str):
+    """the default environment getter returns a fresh copy on every call (both env sets are populated from it:
+    a shared or live mapping would couple the act set, the non-act set and the process environment)"""
+    ix = c.ix
     g = ix.func('exactly_lib.execution.predefined_properties:os_environ_getter')
     from ..fold import single_return_expr
     r = single_return_expr(g)
     ok = isinstance(r, ast.Call) and isinstance(ix.callee(g.module, g, r), External) \
          and ix.callee(g.module, g, r).dotted == 'builtins.dict' and len(r.args) == 1 \
          and dotted_name(r.args[0]) == 'os.environ'
-    c.expect(ok and not g.decorators, 'C04-d', 'os_environ_getter/fresh-copy',
+    c.expect(ok and not g.decorators, rule, 'os_environ_getter/fresh-copy',
              'os_environ_getter does not return a fresh dict(os.environ) on every call (decorators: %s)' % g.decorators,
              g.loc())
+    # and it is the getter the main program configures
+    v = c.fo.fold_path('exactly_lib.definitions.os_proc_env:ENV_VARS_GETTER__DEFAULT')
+    c.expect(isinstance(v, Ref) and v.d == g, rule, 'ENV_VARS_GETTER__DEFAULT',
+             'the default environment getter is %r' % (v,), 'src/exactly_lib/definitions/os_proc_env.py')
 
 
 # ---------------------------------------------------------------- e
